@@ -384,8 +384,11 @@ theorem saveLoad_J {s : St} (hj : J s) (hz : NoAlloc s) : J (saveLoad s) := by
     cases this
   · intro r hr p hp
     unfold saveLoad at hr
-    obtain ⟨r0, hr0, rfl⟩ := List.mem_map.1 hr
-    exact freezeRows_ok hj r0 hr0 p (List.mem_filter.1 hp).1
+    obtain ⟨i, hi, rfl⟩ := List.mem_mapIdx.1 hr
+    have hr0 : (freezeRows s)[i] ∈ freezeRows s := List.getElem_mem _
+    split at hp
+    · exact freezeRows_ok hj _ hr0 p (List.mem_filter.1 hp).1
+    · exact freezeRows_ok hj _ hr0 p hp
 
 theorem iterations_J (P : NoIdP) (fuel : Nat) (r : Recipe) (hP : P.st r.statements) (k : Nat) :
     ∀ (c : Ctx) (cont : Bool) (s : St) (c' : Ctx) (s' : St),
